@@ -7,6 +7,7 @@ CONSTANTS
   DupTerm = TRUE
   ParentKill = TRUE
   ClearFirst = FALSE
+  NarrowExcept = FALSE
 INVARIANT TypeOK
 PROPERTY Live_Reaped
 CHECK_DEADLOCK FALSE
